@@ -179,6 +179,13 @@ static void run_bool(Out& out, Rng& g, const DGroup& A, const DGroup& B, int64_t
     fill_array(B, b);
     DGroup R[6];
     bool err = false;
+    {
+        Frame f0;
+        f0.S = S;
+        frame_add(f0, A);
+        frame_add(f0, B);
+        guard_begin(out, "bool", "S " + hex_u64((uint64_t)S) + " K " + std::to_string(f0.K) + " A " + ser_group(A, f0) + " B " + ser_group(B, f0), "c05-boolean-crash");
+    }
     for (int i = 0; i < 6; i++) {
         Array<Polygon*> r = {};
         ErrorCode e;
@@ -188,6 +195,7 @@ static void run_bool(Out& out, Rng& g, const DGroup& A, const DGroup& B, int64_t
         R[i] = to_dgroup(r);
         free_array(r);
     }
+    guard_end();
     Frame f;
     f.S = S;
     frame_add(f, A);
@@ -462,7 +470,7 @@ static void replay_bool(Out& out, Rng& g, const std::string& payload) {
 }
 static void run_case(Out& out, Rng& g, const std::string& kind, const std::string& payload) {
     if (kind == "lh") replay_lh(out, payload);
-    else if (kind == "bool") replay_bool(out, g, payload);
+    else if (kind == "bool" || kind == "bool-crash") replay_bool(out, g, payload);
 }
 
 int main(int argc, char** argv) {
